@@ -169,7 +169,12 @@ fn rewrites_of(evs: &[Value]) -> Vec<(String, Vec<Value>)> {
 
 /// C11: apply the rewrites to the cases enumerated by TLC and compare the rendered bytes
 pub fn c11(a: &Args) {
-    let cases = read_lines(&a.req("cases"));
+    let mut cases = read_lines(&a.req("cases"));
+    // chains at the boundary depths take part in every run, whatever the stride
+    let nplain = cases.len();
+    if a.num("boundary", 0) == 1 {
+        cases.extend(crate::gen::boundary_event_cases());
+    }
     let mut r = Rng::new(a.num("seed", 1));
     let per_kind_all = a.num("all", 0) == 1;
     let stride = a.num("stride", 1) as usize;
@@ -177,7 +182,7 @@ pub fn c11(a: &Args) {
     let (mut sessions, mut applied, mut skipped) = (0usize, 0usize, 0usize);
     let mut kinds: std::collections::BTreeMap<String, usize> = Default::default();
     for (ci, c) in cases.iter().enumerate() {
-        if ci % stride != 0 || c["indomain"] != true || c["expect"]["st"] != "ok" {
+        if (ci < nplain && ci % stride != 0) || c["indomain"] != true || c["expect"]["st"] != "ok" {
             skipped += 1;
             continue;
         }
